@@ -351,7 +351,9 @@ func runWSeq(args []string) ([]string, string) {
 			name = op.atom
 		}
 		res := ""
-		func() {
+		opDone := make(chan struct{})
+		go func() {
+			defer close(opDone)
 			defer func() {
 				if p := recover(); p != nil {
 					res = "panic"
@@ -374,6 +376,14 @@ func runWSeq(args []string) ([]string, string) {
 				}
 			case "DIS":
 				had := c.Session() != nil
+				if arg(0) == "silent" {
+					// the peer never answers the close frame: Disconnect has to give up at the close deadline (200 ms here)
+					if cn := r.cur(); cn != nil {
+						cn.mu.Lock()
+						cn.echoClose = false
+						cn.mu.Unlock()
+					}
+				}
 				res = resOf(c.Disconnect())
 				if had && listening > 0 {
 					// closing ends the reader: wait for the background goroutine of that session
@@ -466,6 +476,12 @@ func runWSeq(args []string) ([]string, string) {
 				res = "ended"
 			}
 		}()
+		select {
+		case <-opDone:
+		case <-time.After(5 * time.Second):
+			// the operation does not return (a deadlock, or a wait without a deadline): the sequence ends here, short of its operations
+			return args, strings.Join(outs, " ")
+		}
 		outs = append(outs, fmt.Sprintf("O(%s;X(%s))", res, r.snapshot()))
 	}
 	// tear down
@@ -516,6 +532,10 @@ func init() {
 		for k := 0; k < 4; k++ {
 			o.emit("C17", "WSEQ", "CON(ok;ok)", fmt.Sprintf("RAW(%s;-)", hx(r.Bytes(3))), fmt.Sprintf("SND(%s;z)", pfmOfSize(r, 10)), fmt.Sprintf("RAW(%s;-)", hx(r.Bytes(3))))
 			o.emit("C17", "WSEQ", "CON(ok;ok)", fmt.Sprintf("RAW(%s;z)", hx(r.Bytes(5))), "REC(ok;ok)", fmt.Sprintf("RAW(%s;-)", hx(r.Bytes(3))))
+		}
+		// a peer that never answers the close frame: Disconnect / Reconnect return at the close deadline and later calls still work
+		for k := 0; k < 3; k++ {
+			o.emit("C17", "WSEQ", "CON(ok;ok)", fmt.Sprintf("RAW(%s;-)", hx(r.Bytes(3))), "DIS(silent)", "CON(ok;ok)", fmt.Sprintf("RAW(%s;-)", hx(r.Bytes(3))), "DIS")
 		}
 		// the replaced session's listener ends with an error during a successful Reconnect: the new session starts clean
 		for k := 0; k < 6; k++ {
